@@ -66,6 +66,72 @@ theorem dotAxpyB_spec (f : MeanBF α) (v w x res : List α) (a : Nat → α → 
         rw [← h, col_axpyBlocked f.bs j hj v x _ hl, getD_tmp f.bs j hj]
         exact ⟨hl, rfl⟩
 
+/-- everything a successful call tells -/
+theorem dotAxpyB_some (f : MeanBF α) (v w x res : List α) (a : Nat → α → α) (h : f.dotAxpy v w x a = some res) :
+    v.length = w.length ∧ v.length = x.length ∧ f.vol.any (fun c => c = 0) = false ∧
+    res = axpyBlocked f.bs v x ((dotBlocked f.bs v w).zipIdx.map fun p => a p.2 p.1) := by
+  unfold MeanBF.dotAxpy at h
+  split at h
+  · simp at h
+  · split at h
+    · simp at h
+    · split at h
+      · simp at h
+      · rename_i h1 h2 h3
+        simp only [Option.some.injEq] at h
+        exact ⟨by simpa using h1, by simpa using h3, Bool.eq_false_iff.mpr h2, h.symm⟩
+
+/-- if every component's factor vanishes the call returns its argument unchanged -/
+theorem dotAxpyB_fixed (f : MeanBF α) (v w x : List α) (a : Nat → α → α) (h1 : v.length = w.length)
+    (h2 : f.vol.any (fun c => c = 0) = false) (h3 : v.length = x.length)
+    (hz : ∀ j, j < f.bs → a j (dotL (col f.bs j v) (col f.bs j w)) = 0) :
+    f.dotAxpy v w x a = some v := by
+  unfold MeanBF.dotAxpy
+  have e1 : (v.length != w.length) = false := by simp [h1]
+  have e3 : (v.length != x.length) = false := by simp [h3]
+  simp only [e1, h2, e3, Bool.false_eq_true, if_false, Option.some.injEq]
+  apply List.ext_getElem (length_axpyBlocked f.bs v x _ h3)
+  intro p hp1 hp2
+  have hg : ∀ (l : List α) (h : p < l.length), l[p] = l.getD p 0 := by
+    intro l h; simp [List.getD_eq_getElem?_getD, h]
+  rw [hg _ hp1, hg _ hp2, getD_axpyBlocked f.bs v x _ p hp2 h3]
+  have : ((dotBlocked f.bs v w).zipIdx.map fun q => a q.2 q.1).getD (p % f.bs) 0 = 0 := by
+    by_cases hb : f.bs = 0
+    · simp [hb, dotBlocked]
+    · have hlt : p % f.bs < f.bs := Nat.mod_lt _ (Nat.pos_of_ne_zero hb)
+      rw [getD_tmp f.bs _ hlt, hz _ hlt]
+  rw [this]
+  ring
+
+/-- the scalar mean filter of block component `j` -/
+def MeanBF.component (f : MeanBF α) (j : Nat) : MeanF α :=
+  { prim := col f.bs j f.prim, dual := col f.bs j f.dual, vol := f.vol.getD j 0, sol := f.sol.getD j 0 }
+
+theorem col_nil (bs j : Nat) : col bs j ([] : List α) = [] := by simp [col]
+
+/-- the scalar `dot` + `axpy` on one component, from the facts of the blocked call -/
+theorem scalar_dotAxpy_of (cv cw cx : List α) (a : α → α) (h1 : cv.length = cw.length) (h2 : cv.length = cx.length) :
+    MeanF.dotAxpy cv cw cx a = some (axpyL cv cx (a (dotL cv cw))) := by
+  unfold MeanF.dotAxpy
+  have e1 : (cv.length != cw.length) = false := by simp [h1]
+  have e2 : (cv.length != cx.length) = false := by simp [h2]
+  simp only [e1, e2, Bool.false_eq_true, if_false]
+
+theorem scalar_dotAxpy_some (cv cw cx r : List α) (a : α → α) (h : MeanF.dotAxpy cv cw cx a = some r) :
+    cv.length = cw.length ∧ cv.length = cx.length ∧ r = axpyL cv cx (a (dotL cv cw)) := by
+  unfold MeanF.dotAxpy at h
+  split at h
+  · simp at h
+  · split at h
+    · simp at h
+    · rename_i h1 h2
+      simp only [Option.some.injEq] at h
+      exact ⟨by simpa using h1, by simpa using h2, h.symm⟩
+
+theorem scalar_dotAxpy_fixed (cv cw cx : List α) (a : α → α) (h1 : cv.length = cw.length) (h2 : cv.length = cx.length)
+    (hz : a (dotL cv cw) = 0) : MeanF.dotAxpy cv cw cx a = some cv := by
+  rw [scalar_dotAxpy_of cv cw cx a h1 h2, hz, axpyL_zero cv cx h2]
+
 end
 
 end FeatModel.LA.Filter
